@@ -114,16 +114,23 @@ class ReverseProxy(TcpUpstreamConnectionHandler, HttpWebServerBasePlugin):
                 if self.choice.scheme == HTTP_PROTO
                 else self.choice.port or DEFAULT_HTTPS_PORT
             )
-            self.initialize_upstream(text_(self.choice.hostname), port)
+            # Follow-up requests for the same upstream go over the connection
+            # already open to it, responses come back in request order.
+            reuse = self.upstream is not None and \
+                not self.upstream.closed and \
+                self.upstream.addr == (text_(self.choice.hostname), port)
+            if not reuse:
+                self.initialize_upstream(text_(self.choice.hostname), port)
             assert self.upstream
             try:
-                self.upstream.connect()
-                if self.choice.scheme == HTTPS_PROTO:
-                    self.upstream.wrap(
-                        text_(self.choice.hostname),
-                        as_non_blocking=True,
-                        ca_file=self.flags.ca_file,
-                    )
+                if not reuse:
+                    self.upstream.connect()
+                    if self.choice.scheme == HTTPS_PROTO:
+                        self.upstream.wrap(
+                            text_(self.choice.hostname),
+                            as_non_blocking=True,
+                            ca_file=self.flags.ca_file,
+                        )
                 request.path = self.choice.remainder
                 self.upstream.queue(
                     memoryview(
